@@ -270,9 +270,15 @@ class ReadFile:
 
 
 class WriteFile:
+    """a file opened for writing. Like a real buffered file object, written data reaches the file only at flush() / close()
+    (or when the 8 KiB buffer fills up); a killed process loses what is still buffered."""
+    BUFFER = 8192
+
     def __init__(self, world, path, node, text=False):
         self.world, self.path, self.node, self.text = world, path, node, text
         self.closed = False
+        self.pending = []
+        world.open_writers.append(self)
 
     def __enter__(self):
         return self
@@ -280,6 +286,20 @@ class WriteFile:
     def __exit__(self, *a):
         self.close()
         return False
+
+    def _commit(self, upto=None):
+        data = b"".join(self.pending)
+        self.pending = []
+        if upto is not None:
+            data = data[:upto]
+        if data:
+            self.node.content.append(data)
+            self.node.size = self.node.size + len(data)
+            self.node.cid = self.world.content_cid(self.node)
+
+    def _crash_here(self):
+        w = self.world
+        return w.crash_at is not None and len(w.ops) == w.crash_at
 
     def write(self, b):
         if self.closed:
@@ -290,27 +310,39 @@ class WriteFile:
             b = tokens.plain(b).encode("utf-8")
         elif self.text:
             raise TypeError("write() argument must be str, not bytes")
-        w = self.world
-        if w.crash_at is not None and len(w.ops) == w.crash_at:
-            if w.crash_torn and len(b) > 1:
-                part = bytes(b)[:len(b) // 2]
-                self.node.content.append(part)
-                self.node.size = self.node.size + len(part)
-                self.node.cid = w.content_cid(self.node)
+        if self._crash_here():
             raise Crash(("write", self.path))
-        self.node.content.append(bytes(b))
-        self.node.size = self.node.size + len(b)
-        self.node.cid = w.content_cid(self.node)
-        w.op("write", self.path, len(b))
+        self.pending.append(bytes(b))
+        self.world.op("write", self.path, len(b))
+        if sum(len(x) for x in self.pending) > self.BUFFER:
+            self._commit()
         return len(b)
 
+    def _sync(self, kind):
+        if self._crash_here():
+            if self.world.crash_torn:
+                n = sum(len(x) for x in self.pending)
+                if n > 1:
+                    self._commit(n // 2)  # the kill hits in the middle of the write-out of the buffer
+            raise Crash((kind, self.path))
+        self._commit()
+        self.world.op(kind, self.path)
+
     def flush(self):
-        self.world.op("flush", self.path)
+        self._sync("flush")
 
     def close(self):
         if not self.closed:
+            self._sync("close")
             self.closed = True
-            self.world.op("close", self.path)
+            if self in self.world.open_writers:
+                self.world.open_writers.remove(self)
+
+    def collect(self):
+        """the file object is garbage collected without close(): CPython flushes it"""
+        if not self.closed:
+            self._commit()
+            self.closed = True
 
     def fileno(self):
         raise ModelGap("fileno()")
@@ -354,6 +386,7 @@ class World:
         self.cwd = self.ROOT_CWD
         self.escaped = []
         self.perm_counter = 0
+        self.open_writers = []
         self.crash_at = None  # index into the operation log at which the process is killed
         self.crash_torn = False  # the write at that index is applied partially
 
@@ -366,11 +399,15 @@ class World:
         """written files: the content id is a function of the content (literal pieces + structure of the element trees), so that
         byte-identical files written in different worlds / orders have the same id and a partially written file a different one"""
         key = []
-        for piece in b"".join(node.content).decode("utf-8", "replace").split("\x00"):
-            if piece.startswith("XML") and piece[3:].isdigit():
-                key.append(_el_key(tokens.lookup("\x00%s\x00" % piece).el))
-            else:
-                key.append(piece)
+        text = b"".join(node.content).decode("utf-8", "replace")
+        pos = 0
+        for m in tokens.KEY_RE.finditer(text):
+            if m.group(1) != "XML":
+                continue
+            key.append(text[pos:m.start()])
+            key.append(_el_key(tokens.lookup(m.group(0)).el))
+            pos = m.end()
+        key.append(text[pos:])
         key = tuple(key)
         ids = self.hm.content_ids
         if key not in ids:
@@ -416,6 +453,7 @@ class World:
         w = World.__new__(World)
         w.__dict__.update(self.__dict__)
         w.nodes = {p: n.clone() for p, n in self.nodes.items()}
+        w.open_writers = []
         w.ops = []
         w.log = []
         return w
